@@ -177,6 +177,26 @@ def run(ctx: Ctx) -> None:
                               {**case, "order": order})
         if (sch._full_schedule.get("schedule") if sch._full_schedule else None) != days:
             ctx.violation("reassembly-incomplete", "all fragments were received but no schedule resulted", {**case, "order": order})
+        # ... and the SAME object then receives the packets of a changed schedule (any order, repeats): once all have arrived it holds the new one
+        days2 = gen_schedule(rng, dhw)
+        try:
+            full2 = dict(S.SCH_FULL_SCHEDULE({"zone_idx": idx, "schedule": days2}))
+        except Exception:  # noqa: BLE001
+            full2 = None
+        if full2 is not None and days2 != days:
+            if dhw:
+                full2["zone_idx"] = "00"
+            frs2 = S.full_sched_to_fragz(full2)
+            order2 = list(range(len(frs2))) + [rng.randrange(len(frs2)) for _ in range(rng.randint(0, 3))]
+            rng.shuffle(order2)
+            ctx.case(("resched", idx, repr(days2), tuple(order2)), True, "reassembly-after-a-previous-schedule")
+            for n in order2:
+                sch._payload_set = sch._update_payload_set(sch._payload_set, {"frag_number": n + 1, "total_frags": len(frs2), "fragment": frs2[n]})
+            got = sch._full_schedule.get("schedule") if sch._full_schedule else None
+            if got != days2:
+                sig = "reassembly-keeps-the-previous-schedule" if got == days else "reassembly-yields-other-schedule:after-a-previous-schedule" if got is not None else "reassembly-incomplete:after-a-previous-schedule"
+                ctx.violation(sig, "every packet of the changed schedule was received (after the previous one had been reassembled) but the object does not hold the new schedule",
+                              {"zone_idx": idx, "previous": days, "schedule": days2, "fragments_before": len(frs), "fragments_now": len(frs2), "order": order2})
         # model: pre-compression blob + reassembly pattern (with identity 'compression')
         raw = zlib.decompress(bytes.fromhex("".join(frs)))
         enc_impl.append([list(raw)])
